@@ -1046,6 +1046,15 @@ class Exec:
                 s2.pc.append(z3.Not(has))
                 out.append((s2, 'none', None))
             return out
+        if k == 'cloned':      # Iterator::cloned over references to elements: next() = inner.next().map(T::clone)
+            out = []
+            for (s1, kk, v) in s.iter_next(st, cell, path + ('inner',), where):
+                if kk != 'some':
+                    out.append((s1, kk, v))
+                    continue
+                for (s2, k2, v2) in s.call(s1, '<T as Clone>::clone', [v], where):
+                    out.append((s2, 'some' if k2 == 'ret' else 'unwind', v2))
+            return out
         if k == 'from_fn':      # core::iter::from_fn(f): next() = f()
             cc = st.new_cell(r['clo']) if not isinstance(r['clo'], Ref) else r['clo'].cell
             out = []
@@ -1133,7 +1142,7 @@ class Exec:
         if r['kind'] in ('slice', 'rslice'):
             n = r['end'] - r['pos']
             return {0: n, 1: Enum('Some', {0: n})}
-        if r['kind'] in ('map', 'enumerate'):
+        if r['kind'] in ('map', 'enumerate', 'cloned'):
             return s.size_hint(st, r['inner'])
         if r['kind'] == 'source':
             return r['hint']
@@ -1935,8 +1944,13 @@ class Exec:
             a = args[0]
             arr = a.arr if isinstance(a, (ArrRef, ElemPtr)) else st.get(a.cell, a.path)
             if isinstance(arr, Arr):
-                st.events.append('ptr::read of the whole array %s' % arr.name)
-                return R(arr)
+                # a move: the copy owns whatever the source's slots owned, the source's slots are logically uninitialised from here on
+                st.calls += 1
+                new = Arr('Moved%d' % st.calls, arr.len)
+                st.status[new] = s.stat(st, arr)
+                st.status[arr] = UNINIT
+                st.events.append('ptr::read of the whole array %s (moved into %s)' % (arr.name, new.name))
+                return R(new)
             raise NotImplementedError('block read ' + c)
         if re.search(r'(^|::)read::<GenericArray<', c):
             raise NotImplementedError('block read ' + c)
@@ -2205,6 +2219,8 @@ class Exec:
         args = [s.as_iter(a) for a in args] if re.search(r' as (Iterator|IntoIterator|DoubleEndedIterator)>::', c) else args
         if re.search(r' as Iterator>::try_for_each::<', c):
             return s.try_for_each(st, args[0], args[1], where)
+        if re.search(r' as Iterator>::(cloned|copied)(::<.*>)?$', c):
+            return R({'kind': 'cloned', 'inner': args[0]})
         if re.search(r' as Iterator>::by_ref$', c):
             return R(args[0])
         if re.search(r' as Iterator>::rev$', c):
